@@ -1,6 +1,7 @@
 import Femio.Lemmas.TensorLemmas
 import Femio.Lemmas.AlignLemmas
 import Femio.Lemmas.LinAlg
+import Femio.Model.TensorRound
 import Mathlib.Algebra.CharZero.Defs
 import Mathlib.Logic.Equiv.Defs
 import Mathlib.Algebra.Group.End
@@ -601,5 +602,40 @@ example : fromEigens (diagShortcut false (⟨1, 3, 2⟩ : V3 ℚ) 1 0 2).vals (d
 example : flatKey 70000 (69998, 69999) < flatKey 70000 (69999, 0) :=
   (C17_flat_key_order 70000 (69998, 69999) (69999, 0) (by decide) (by decide)).1.mpr (Or.inl (by decide))
 example : flatKey 70000 (69999, 0) > 2 ^ 32 := by decide
+
+/-! ### `align_nnz`: a cast of the recovered values back to an integer dtype (seeded change C17-9, round 5) -/
+section AlignCast
+open Femio.TensorRound
+
+/-- **C17, `align_nnz` with a cast back to the dtype of the input, exact arithmetic.**  Over the rationals the value recovered
+    for an integer entry `v` is `v` itself whatever the dummy scale `D` and the number `c` of matrices that store the cell, so
+    truncating it toward zero (`ndarray.astype(int)`) changes nothing: the exact model `alignNnz` (and `C17_align_nnz`) cannot
+    see such a cast.  What makes it wrong is the round-off of the three binary64 operations — see the counterexample below. -/
+theorem C17_align_cast_exact (v : Int) (c : Nat) (D : ℚ) : truncCast (((v : ℚ) + (c : ℚ) * D) - (c : ℚ) * D) = v := by
+  have h : ((v : ℚ) + (c : ℚ) * D) - (c : ℚ) * D = (v : ℚ) := by ring
+  rw [h]
+  unfold truncCast
+  split
+  · exact Rat.floor_intCast v
+  · exact Rat.ceil_intCast v
+
+/-- **C17, `align_nnz` with a cast back to the dtype of the input, binary64: counterexample.**  A 0/1 integer adjacency matrix
+    aligned together with float weights whose minimum is `fl(−1.3)`: `D = fl(2·1.3 + 1) = fl(3.6)` is not a dyadic number of few
+    bits, `1 + D` lies in the binade above `D`, and the entry `1` comes back as `1 − 2⁻⁵¹ = 0.9999999999999996` — inside the
+    tolerance of the property (`≤ 10⁻¹²·D`), but truncated to `0` by the cast: every edge of the graph is lost.  In the same way
+    the count `14` next to a minimum of `fl(−0.7)` (`D = fl(2.4)`) comes back as `14 − 2⁻⁴⁹` and is truncated to `13`. -/
+theorem C17_align_cast_roundoff_counterexample :
+    (let D := dummyScaleFl (fl (-13 / 10))
+     alignEntryFl D 1 1 = 1 - 1 / 2 ^ 51 ∧ 1 - alignEntryFl D 1 1 ≤ D / 10 ^ 12 ∧ truncCast (alignEntryFl D 1 1) = 0) ∧
+    (let D := dummyScaleFl (fl (-7 / 10))
+     alignEntryFl D 1 14 = 14 - 1 / 2 ^ 49 ∧ 14 - alignEntryFl D 1 14 ≤ D / 10 ^ 12 ∧ truncCast (alignEntryFl D 1 14) = 13) := by
+  decide +kernel
+
+/-- the same entries next to a dyadic minimum (`−1.5`, `D = 4`) are recovered exactly: the situation of femio's own test
+    (integer matrices only, `D = 1`) and of every list whose minimum is an integer or a short dyadic fraction -/
+example : alignEntryFl (dummyScaleFl (fl (-3 / 2))) 2 1 = 1 ∧ alignEntryFl (dummyScaleFl 0) 3 14 = 14 := by decide +kernel
+example : truncCast (((1 : Int) : ℚ) + ((2 : Nat) : ℚ) * (18 / 5) - ((2 : Nat) : ℚ) * (18 / 5)) = 1 := C17_align_cast_exact 1 2 (18 / 5)
+
+end AlignCast
 
 end Femio.C17
